@@ -114,6 +114,12 @@ var c05LoopTable = map[string]string{
 	"internal/upload.computeRandom/loop while (crypto/rand.Read(slice(alloc:makeslice#t0,_,8,_))#1 != nil)":   "probabilistic rejection loop: each iteration accepts with probability > 0.99",
 }
 
+// c05NeverFails: calls whose error result is documented to be always nil (library contract).
+var c05NeverFails = map[string]bool{
+	"(*strings.Builder).Write": true, "(*strings.Builder).WriteByte": true, "(*strings.Builder).WriteRune": true, "(*strings.Builder).WriteString": true,
+	"(*bytes.Buffer).Write": true, "(*bytes.Buffer).WriteByte": true, "(*bytes.Buffer).WriteRune": true, "(*bytes.Buffer).WriteString": true,
+}
+
 // c05Recover: upload.Run recovers panics and nothing under uploader.Run starts a goroutine.
 func c05Recover(c *Ctx, m *Module) {
 	r := c.R
@@ -762,8 +768,11 @@ func c05ErrorsChecked(c *Ctx, m *Module, fns []*ssa.Function) {
 			if used {
 				continue
 			}
-			dropped++
 			cn := calleeName(cs.Common())
+			if c05NeverFails[cn] {
+				continue // library contract: the error result is always nil
+			}
+			dropped++
 			reason, tabled := c05IgnoreTable[fname(f)+"|"+cn]
 			if !tabled {
 				reason, tabled = c05IgnoreTable[fnameTop(f)+"|"+cn]
